@@ -317,9 +317,9 @@ def reapSamplesSk (fails : Eff → Bool) (wait sync : Bool) (cleanUp : Option Bo
   else
     (skBind (reapRunnerSk fails wait (some false : Option Bool) allowIncomplete true trace) fun trace =>
       let df := ()
+      let trace := trace ++ [.setLast]
+      if fails .setLast then (trace, some .other) else
       if sync then
-        let trace := trace ++ [.setLast]
-        if fails .setLast then (trace, some .other) else
         let trace := trace ++ [.sync]
         if fails .sync then (trace, some .other) else
         let cleanUp := if cleanUp.isNone then
